@@ -314,7 +314,7 @@ def main(check_module, argv=None):
     mod = sys.modules[check_module] if isinstance(check_module, str) else check_module
     pid = mod.PID
     argv = sys.argv[1:] if argv is None else argv
-    tier = os.environ.get("VERIF_TIER") or (argv[0] if argv else "quick")
+    tier = (argv[0] if argv else None) or os.environ.get("VERIF_TIER") or "quick"      # an explicit argument wins
     tier = "thorough" if tier == "thorough" else "quick"
     seed = core.SEED
     t0 = time.time()
